@@ -2,6 +2,7 @@ import Driver.C19
 import Driver.C03
 import Driver.C04
 import Driver.C17
+import Driver.C14
 /-! nvdriver: line protocol. Each input line `<PROP> <tokens…>` is answered by exactly one line:
     `ok[ …]` | `diff …` (model and implementation disagree) | `specviol …` (the implementation's
     own answer violates the property predicate) | `bad-op`. -/
@@ -16,6 +17,7 @@ def dispatch (d : DS) (line : String) : DS × String :=
   | "C19" :: rest => let (s, o) := Driver.C19.handle d.c19 rest; ({ d with c19 := s }, o)
   | "C03" :: rest => let (s, o) := Driver.C03.handle d.c03 rest; ({ d with c03 := s }, o)
   | "C17" :: rest => let (s, o) := Driver.C17.handle d.c17 rest; ({ d with c17 := s }, o)
+  | "C14" :: rest => (d, Driver.C14.handle rest)
   | "C04" :: rest => (d, Driver.C04.handle rest)
   | "C08" :: rest => (d, Driver.C04.handle rest)
   | _ => (d, "bad-op")
